@@ -8,12 +8,15 @@
     no state in which a pipeline has a free concurrency slot while the job at the head of its wait list has no pending
     start timer (C03_work_conserving) — the start happens in the very step that frees the slot or fires the timer, so the
     "bounded time" is zero steps of the runner.
-    NOT proved: "eventually starts or is reported canceled, provided tasks terminate" needs fairness of the Go scheduler
-    and termination of tasks, which the model does not express; it is judged by the monitor at the end of every drained
-    history (for pipelines that remained defined). *)
+    The progress measure of "eventually starts": a job that is not waiting never becomes waiting again, so the set of jobs
+    that wait in front of a given job only shrinks (C03_jobs_ahead_only_shrink); when it is empty the job is the head, and
+    by work conservation it does not stay waiting once its delay has passed and a slot is free.
+    NOT proved: that the measure does decrease ("eventually ... provided tasks terminate") needs fairness of the Go
+    scheduler and termination of tasks, which the model does not express; it is judged by the monitor at the end of every
+    drained history (for pipelines that remained defined). *)
 From stdpp Require Import list sorting.
 From Coq Require Import ZArith.
-From PV Require Import System Runner proofs.SystemProps proofs.WorkProps.
+From PV Require Import System Runner proofs.SystemProps proofs.WorkProps proofs.AheadProps.
 
 Theorem C03_waiting_iff_queued_partial : ∀ s p,
   reach s → st_shut s = false → wl_get (st_wait s) p = sys_waiting_ids s p.
@@ -38,12 +41,25 @@ Theorem C03_work_conserving : ∀ ds evs p h rest j,
   (pd_conc (def_or_zero ds p) ≤ running_count s p)%nat.
 Proof. exact sys_work_conserving. Qed.
 
+(** a job that has left the waiting state never waits again; the jobs waiting in front of a job only become fewer *)
+Theorem C03_waiting_never_regained : ∀ s evs id j j',
+  reach s → Forall no_restart evs → get_job s id = Some j → get_job (exec s evs) id = Some j' →
+  is_waiting j' = true → is_waiting j = true ∧ j_pipe j' = j_pipe j.
+Proof. exact waiting_never_regained. Qed.
+Theorem C03_jobs_ahead_only_shrink : ∀ s evs id id' j j1',
+  reach s → Forall no_restart evs → get_job s id = Some j → (id' < id)%nat →
+  get_job (exec s evs) id' = Some j1' → is_waiting j1' = true →
+  ∃ j1, get_job s id' = Some j1 ∧ is_waiting j1 = true ∧ j_pipe j1 = j_pipe j1'.
+Proof. exact jobs_ahead_only_shrink. Qed.
+
 Definition ex_defs : defs := [(0%nat, PDef 1 None false 0 false 0 0 0 [(0%nat, TaskDef [] false false 0 0)])].
 Example C03_ex :
   let s := exec (init ex_defs) [EvSchedule 0 VNone 0; EvSchedule 0 VNone 0; EvSchedule 0 VNone 0; EvCancel 1] in
   wl_get (st_wait s) 0 = [2%nat] ∧ sys_waiting_ids s 0 = [2%nat].
 Proof. vm_compute. done. Qed.
 
+Print Assumptions C03_waiting_never_regained.
+Print Assumptions C03_jobs_ahead_only_shrink.
 Print Assumptions C03_waiting_iff_queued_partial.
 Print Assumptions C03_queue_in_acceptance_order.
 Print Assumptions C03_canceled_waiting_stays_out.
